@@ -117,20 +117,97 @@ theorem pureOn_temp (W : World U V) {live : List String} {t : T V} {tmp : String
     (hl : t.lookup tmp = some v) : PureOn W (.name tmp) live t v :=
   fun u t' hx => .temp tmp u t' v ht ((hx tmp hm).trans hl)
 
-theorem pureOn_item (W : World U V) (hW : LawfulSeq W) {live : List String} {t : T V} {tmp : String} {items : List V} {i : Nat} {v : V}
-    (hm : tmp ∈ live) (ht : isTemp tmp) (hl : t.lookup tmp = some (W.tupleOf items)) (hi : items[i]? = some v) :
-    PureOn W (.subscript (.name tmp) (intConstant (i : Int))) live t v := by
+theorem intConstant_ev (W : World U V) (i : Int) (u : U) (t : T V) : Ev W (intConstant i) u t (W.const (.int i)) u t := by
+  unfold intConstant
+  split
+  · have := Ev.negInt (W := W) (-i) u t
+    rwa [Int.neg_neg] at this
+  · exact .const _ u t
+
+theorem isSliceE_intConstant (i : Int) : isSliceE (intConstant i) = false := by
+  unfold intConstant; split <;> rfl
+
+theorem pureOn_index (W : World U V) (hW : LawfulSeq W) {live : List String} {t : T V} {tmp : String} {items : List V} {i : Int} {v : V}
+    (hm : tmp ∈ live) (ht : isTemp tmp) (hl : t.lookup tmp = some (W.tupleOf items)) (hi : pyIndexG items i = some v) :
+    PureOn W (.subscript (.name tmp) (intConstant i)) live t v := by
   intro u t' hx
-  have hc : intConstant (i : Int) = .const (.int (i : Int)) := by
-    unfold intConstant
-    have : ¬ ((i : Int) < 0) := by omega
-    simp [this]
-  rw [hc]
-  exact .sub _ _ rfl (.temp tmp u t' _ ht ((hx tmp hm).trans hl)) (.const _ u t') (hW.index items i v u hi)
+  exact .sub _ _ (isSliceE_intConstant i) (.temp tmp u t' _ ht ((hx tmp hm).trans hl)) (intConstant_ev W i u t') (hW.index items i v u hi)
+
+theorem pureOn_star (W : World U V) (hW : LawfulSeq W) {live : List String} {t : T V} {tmp : String} {items : List V} (lo : Nat) (hi : Option Int)
+    (hm : tmp ∈ live) (ht : isTemp tmp) (hl : t.lookup tmp = some (W.tupleOf items)) :
+    PureOn W (.call (.name "list") [.subscript (.name tmp) (.slice (some (.const (.int (lo : Int)))) (hi.map intConstant) none)] []) live t
+      (W.listOf (pySliceG items lo hi)) := by
+  intro u t' hx
+  exact .listCall _ (.subSlice _ _ _ _ (.temp tmp u t' _ ht ((hx tmp hm).trans hl)) (hW.slice items lo hi u)) (hW.iter _ u)
 
 theorem PureOn.weaken {W : World U V} {ve : Expr} {live live' : List String} {t t1 : T V} {v : V}
     (h : PureOn W ve live t v) (hs : ∀ x ∈ live, x ∈ live') (hx : Ext live' t t1) : PureOn W ve live' t1 v :=
   fun u t' hx' => h u t' (Ext.trans (hx.sub hs) (hx'.sub hs))
+
+/-! ### which item of a pattern is the starred one -/
+
+def StarAt (star : Option Nat) (index : Nat) (elts : List Expr) : Prop :=
+  ∀ j e, elts[j]? = some e → (e.isStarred = true ↔ star = some (index + j))
+
+theorem starCount_zero : ∀ (es : List Expr), starCount es = 0 → ∀ e ∈ es, e.isStarred = false
+  | [], _, e, he => by cases he
+  | e0 :: es, h, e, he => by
+      simp only [starCount] at h
+      simp only [List.mem_cons] at he
+      rcases he with rfl | he
+      · cases hs : e.isStarred
+        · rfl
+        · simp [hs] at h
+      · exact starCount_zero es (by omega) e he
+
+theorem starAt_init : ∀ (es : List Expr), starCount es ≤ 1 → StarAt (starIndex es) 0 es
+  | [], _ => by intro j e he; simp at he
+  | e0 :: es, h => by
+      intro j e he
+      simp only [starCount] at h
+      simp only [starIndex]
+      cases hs : e0.isStarred
+      · -- the first item is not the starred one
+        simp only [hs, Bool.false_eq_true, if_false, Nat.zero_add] at h ⊢
+        cases j with
+        | zero =>
+          simp only [List.getElem?_cons_zero, Option.some.injEq] at he
+          subst he
+          simp only [hs, Bool.false_eq_true, false_iff]
+          cases starIndex es <;> simp
+        | succ j =>
+          simp only [List.getElem?_cons_succ] at he
+          have ih := starAt_init es (by omega) j e he
+          simp only [Nat.zero_add] at ih
+          rw [ih]
+          cases starIndex es <;> simp
+      · simp only [hs, if_true, Nat.zero_add] at h ⊢
+        have hz := starCount_zero es (by omega)
+        cases j with
+        | zero =>
+          simp only [List.getElem?_cons_zero, Option.some.injEq] at he
+          subst he
+          simp [hs]
+        | succ j =>
+          simp only [List.getElem?_cons_succ] at he
+          have := hz e (List.mem_of_getElem? he)
+          simp [this]
+
+theorem StarAt.head {star : Option Nat} {index : Nat} {e : Expr} {elts : List Expr} (h : StarAt star index (e :: elts)) :
+    (e.isStarred = true ↔ star = some index) := by
+  have := h 0 e (by simp)
+  simpa using this
+
+theorem StarAt.tail {star : Option Nat} {index : Nat} {e : Expr} {elts : List Expr} (h : StarAt star index (e :: elts)) :
+    StarAt star (index + 1) elts := by
+  intro j x hx
+  have := h (j + 1) x (by simpa using hx)
+  rw [this]
+  constructor <;> intro hh <;> rw [hh] <;> congr 1 <;> omega
+
+theorem isStarred_eq {e : Expr} (h : e.isStarred = true) : ∃ sub, e = .starred sub := by
+  cases e <;> simp [Expr.isStarred] at h
+  exact ⟨_, rfl⟩
 
 /-! ### targets -/
 
@@ -177,44 +254,55 @@ mutual
             exact ⟨t, Seq.cons (.setitem o i _ f1 f2 (hp _ t (Ext.refl _ _)) hset) (Seq.nil W _ _), Ext.refl _ _, Nat.le_refl _, sameFlags_refl _⟩
     | .tuple elts, hs, inPat, v, u, u', ha, ve, live, t, st, hlive, hp, es, st', h => by
         cases hs with
-        | tuple _ hall =>
+        | tuple _ hall hsc =>
           cases ha with
-          | @tuple _ _ items _ u1 _ hit hlen heach =>
+          | @tuple _ _ items vals _ u1 _ hit hvals heach =>
             simp only [assignAuto] at h
             obtain ⟨⟨rest, st2⟩, hr, h⟩ := bind_ok h
             cases pure_ok h
             have htmp := isTemp_fresh st "assign"
             have hlive1 := LiveOk.cons_fresh st "assign" hlive
-            have r := assignElts_pure W hW hn elts hall heach (st.fresh "assign").1 htmp items 0 (fun j => by simp)
+            have r := assignElts_pure W hW hn elts hall heach (st.fresh "assign").1 htmp items vals elts.length (starIndex elts) hvals 0 (by simp)
+              (starAt_init elts hsc) (fun j => by simp) false (by simp)
               ((st.fresh "assign").1 :: live) (((st.fresh "assign").1, W.tupleOf items) :: t) (st.fresh "assign").2 hlive1 (by simp) (lookup_head _ _ _)
-              elts.length rest st2 hr
+              rest st2 hr
             obtain ⟨t', hseq, hext, hmono, hfl⟩ := r
             refine ⟨t', Seq.cons (.walrusT _ _ htmp (.tupleCall ve (hp u t (Ext.refl _ _)) hit)) hseq, ?_, ?_, sameFlags_trans hfl (sameFlags_fresh _ _)⟩
             · exact Ext.trans (Ext.cons_fresh st "assign" _ t hlive) (hext.sub (fun x hx => by simp [hx]))
             · have := fresh_next st "assign"; dsimp only; omega
     | .list elts, hs, inPat, v, u, u', ha, ve, live, t, st, hlive, hp, es, st', h => by
         cases hs with
-        | list _ hall =>
+        | list _ hall hsc =>
           cases ha with
-          | @list _ _ items _ u1 _ hit hlen heach =>
+          | @list _ _ items vals _ u1 _ hit hvals heach =>
             simp only [assignAuto] at h
             obtain ⟨⟨rest, st2⟩, hr, h⟩ := bind_ok h
             cases pure_ok h
             have htmp := isTemp_fresh st "assign"
             have hlive1 := LiveOk.cons_fresh st "assign" hlive
-            have r := assignElts_pure W hW hn elts hall heach (st.fresh "assign").1 htmp items 0 (fun j => by simp)
+            have r := assignElts_pure W hW hn elts hall heach (st.fresh "assign").1 htmp items vals elts.length (starIndex elts) hvals 0 (by simp)
+              (starAt_init elts hsc) (fun j => by simp) false (by simp)
               ((st.fresh "assign").1 :: live) (((st.fresh "assign").1, W.tupleOf items) :: t) (st.fresh "assign").2 hlive1 (by simp) (lookup_head _ _ _)
-              elts.length rest st2 hr
+              rest st2 hr
             obtain ⟨t', hseq, hext, hmono, hfl⟩ := r
             refine ⟨t', Seq.cons (.walrusT _ _ htmp (.tupleCall ve (hp u t (Ext.refl _ _)) hit)) hseq, ?_, ?_, sameFlags_trans hfl (sameFlags_fresh _ _)⟩
             · exact Ext.trans (Ext.cons_fresh st "assign" _ t hlive) (hext.sub (fun x hx => by simp [hx]))
             · have := fresh_next st "assign"; dsimp only; omega
+    | .starred sub, hs, inPat, v, u, u', ha, ve, live, t, st, hlive, hp, es, st', h => by
+        cases hs with
+        | starred _ hsub =>
+          cases ha with
+          | starred _ hin =>
+            cases inPat with
+            | false => simp only [assignAuto] at h; cases h
+            | true =>
+              simp only [assignAuto, if_true] at h
+              exact assignAuto_pure W hW hn sub hsub false hin ve live t st hlive hp es st' h
     | .const _, hs, _, _, _, _, _, _, _, _, _, _, _, _, _, _ => by cases hs
     | .joinedStr _, hs, _, _, _, _, _, _, _, _, _, _, _, _, _, _ => by cases hs
     | .formattedValue .., hs, _, _, _, _, _, _, _, _, _, _, _, _, _, _ => by cases hs
     | .set _, hs, _, _, _, _, _, _, _, _, _, _, _, _, _, _ => by cases hs
     | .dict _, hs, _, _, _, _, _, _, _, _, _, _, _, _, _, _ => by cases hs
-    | .starred _, hs, _, _, _, _, _, _, _, _, _, _, _, _, _, _ => by cases hs
     | .slice .., hs, _, _, _, _, _, _, _, _, _, _, _, _, _, _ => by cases hs
     | .call .., hs, _, _, _, _, _, _, _, _, _, _, _, _, _, _ => by cases hs
     | .binOp .., hs, _, _, _, _, _, _, _, _, _, _, _, _, _, _ => by cases hs
@@ -232,37 +320,109 @@ mutual
     | .yieldFrom _, hs, _, _, _, _, _, _, _, _, _, _, _, _, _, _ => by cases hs
     | .await _, hs, _, _, _, _, _, _, _, _, _, _, _, _, _, _ => by cases hs
 
-  /-- the elements of a pattern, from position `index` on: element `j` receives `tmp[index + j]` -/
+  /-- the items of a pattern from position `index` on: each receives the index / slice expression
+      `assign_tuple_list` emits for it, which evaluates to the value Python's unpacking gives it (C13.unpack) -/
   theorem assignElts_pure (W : World U V) (hW : LawfulSeq W) {n : Nsp} (hn : n.kind = .module) :
-      ∀ (elts : List Expr), (∀ e ∈ elts, SimpleT e) → ∀ {vals : List V} {u u' : U}, AssignEach W elts vals u u' →
-      ∀ (tmp : String), isTemp tmp → ∀ (items : List V) (index : Nat), (∀ j, vals[j]? = items[index + j]?) →
+      ∀ (elts : List Expr), (∀ e ∈ elts, SimpleT e) → ∀ {valsS : List V} {u u' : U}, AssignEach W elts valsS u u' →
+      ∀ (tmp : String), isTemp tmp → ∀ (items vals : List V) (len : Nat) (star : Option Nat), pyValuesG W.listOf len star items = some vals →
+      ∀ (index : Nat), index + elts.length = len → StarAt star index elts → (∀ j, valsS[j]? = vals[index + j]?) →
+      ∀ (hs : Bool), (hs = true ↔ ∃ k, star = some k ∧ k < index) →
       ∀ (live : List String) (t : T V) (st : St), LiveOk live st.sup.next → tmp ∈ live → t.lookup tmp = some (W.tupleOf items) →
-      ∀ (len : Nat) (out : List Expr) (st' : St), assignElts n tmp len index false elts st = .ok (out, st') →
+      ∀ (out : List Expr) (st' : St), assignElts n tmp len index hs elts st = .ok (out, st') →
         ∃ t', Seq W out u t u' t' ∧ Ext live t t' ∧ st.sup.next ≤ st'.sup.next ∧ sameFlags st' st
-    | [], _, _, _, _, .nil _, tmp, _, items, index, _, live, t, st, _, _, _, len, out, st', h => by
+    | [], _, _, _, _, .nil _, tmp, _, items, vals, len, star, _, index, _, _, _, hs, _, live, t, st, _, _, _, out, st', h => by
         simp only [assignElts] at h
         cases h
         exact ⟨t, Seq.nil W _ _, Ext.refl _ _, Nat.le_refl _, sameFlags_refl _⟩
-    | e :: elts, hall, _, _, _, .cons (v := v0) (vs := vs) h1 h2, tmp, htmp, items, index, hvals, live, t, st, hlive, hm, hl, len, out, st', h => by
+    | e :: elts, hall, _, _, _, .cons (v := v0) (vs := vs) h1 h2, tmp, htmp, items, vals, len, star, hpv, index, hlen, hstar, hvals, hs, hhs,
+        live, t, st, hlive, hm, hl, out, st', h => by
         have hse := hall e (by simp)
-        have hns : e.isStarred = false := by cases hse <;> rfl
-        simp only [assignElts, hns, Bool.false_and, Bool.false_eq_true, if_false, Bool.or_false] at h
-        obtain ⟨⟨a, st1⟩, ha, h⟩ := bind_ok h
-        obtain ⟨⟨b, st2⟩, hb, h⟩ := bind_ok h
-        cases pure_ok h
-        have hv0 : items[index]? = some v0 := by
+        have hidx : index < len := by simp only [List.length_cons] at hlen; omega
+        have hv0 : vals[index]? = some v0 := by
           have := hvals 0
           simpa using this.symm
-        have hp := pureOn_item W hW hm htmp hl hv0
-        obtain ⟨t1, hs1, hx1, hm1, hf1⟩ := assignAuto_pure W hW hn e hse true h1 _ live t st hlive hp a st1 ha
-        have hl1 : t1.lookup tmp = some (W.tupleOf items) := (hx1 tmp hm).trans hl
-        have hvals' : ∀ j, vs[j]? = items[index + 1 + j]? := by
+        have hol := unpackG W.listOf len star items vals hpv index hidx
+        rw [hv0] at hol
+        have hvals' : ∀ j, vs[j]? = vals[index + 1 + j]? := by
           intro j
           have := hvals (j + 1)
           simpa [Nat.add_assoc, Nat.add_comm 1 j] using this
-        obtain ⟨t2, hs2, hx2, hm2, hf2⟩ := assignElts_pure W hW hn elts (fun x hx => hall x (by simp [hx])) h2 tmp htmp items (index + 1)
-          hvals' live t1 st1 (hlive.mono hm1) hm hl1 len b st2 hb
-        exact ⟨t2, Seq.append hs1 hs2, Ext.trans hx1 hx2, Nat.le_trans hm1 hm2, sameFlags_trans hf2 hf1⟩
+        have hlen' : index + 1 + elts.length = len := by simp only [List.length_cons] at hlen; omega
+        have hhead := hstar.head
+        simp only [assignElts] at h
+        cases hes : e.isStarred
+        · -- an ordinary item: `tmp[index]`, or `tmp[index - len]` behind the star
+          have hne : star ≠ some index := fun hh => by rw [hhead.mpr hh] at hes; cases hes
+          simp only [hes, Bool.false_and, Bool.false_eq_true, if_false, Bool.or_false] at h
+          obtain ⟨⟨a, st1⟩, ha, h⟩ := bind_ok h
+          obtain ⟨⟨b, st2⟩, hb, h⟩ := bind_ok h
+          cases pure_ok h
+          have hpi : pyIndexG items (if hs = true then (index : Int) - (len : Int) else (index : Int)) = some v0 := by
+            rw [← hol]
+            cases star with
+            | none =>
+              have : hs = false := by
+                cases hs with
+                | false => rfl
+                | true => obtain ⟨k, hk, _⟩ := hhs.mp rfl; cases hk
+              simp [olValueG, this]
+            | some k =>
+              have hk : k ≠ index := fun hh => hne (by rw [hh])
+              simp only [olValueG]
+              by_cases hlt : index < k
+              · have : hs = false := by
+                  cases hs with
+                  | false => rfl
+                  | true => obtain ⟨k', hk', hlt'⟩ := hhs.mp rfl; cases hk'; omega
+                simp [this, hlt]
+              · have : hs = true := hhs.mpr ⟨k, rfl, by omega⟩
+                have hne' : ¬ index = k := fun hh => hk hh.symm
+                simp [this, hlt, hne']
+          have hp := pureOn_index W hW hm htmp hl hpi
+          obtain ⟨t1, hs1, hx1, hm1, hf1⟩ := assignAuto_pure W hW hn e hse true h1 _ live t st hlive hp a st1 ha
+          have hl1 : t1.lookup tmp = some (W.tupleOf items) := (hx1 tmp hm).trans hl
+          have hhs' : (hs = true ↔ ∃ k, star = some k ∧ k < index + 1) := by
+            rw [hhs]
+            constructor
+            · rintro ⟨k, hk, hlt⟩; exact ⟨k, hk, by omega⟩
+            · rintro ⟨k, hk, hlt⟩
+              refine ⟨k, hk, ?_⟩
+              have : k ≠ index := fun hh => hne (by rw [hk, hh])
+              omega
+          obtain ⟨t2, hs2, hx2, hm2, hf2⟩ := assignElts_pure W hW hn elts (fun x hx => hall x (by simp [hx])) h2 tmp htmp items vals len star hpv
+            (index + 1) hlen' hstar.tail hvals' hs hhs' live t1 st1 (hlive.mono hm1) hm hl1 b st2 hb
+          exact ⟨t2, Seq.append hs1 hs2, Ext.trans hx1 hx2, Nat.le_trans hm1 hm2, sameFlags_trans hf2 hf1⟩
+        · -- the starred item: `list(tmp[index : index - len + 1])`
+          have hst : star = some index := hhead.mp hes
+          have hsf : hs = false := by
+            cases hs with
+            | false => rfl
+            | true => obtain ⟨k, hk, hlt⟩ := hhs.mp rfl; rw [hst] at hk; cases hk; omega
+          subst hsf
+          simp only [hes, Bool.and_false, Bool.false_eq_true, if_false, if_true, Bool.false_or] at h
+          obtain ⟨⟨a, st1⟩, ha, h⟩ := bind_ok h
+          obtain ⟨⟨b, st2⟩, hb, h⟩ := bind_ok h
+          cases pure_ok h
+          obtain ⟨sub, rfl⟩ := isStarred_eq hes
+          have hv : v0 = W.listOf (pySliceG items index (if (index : Int) - (len : Int) + 1 = 0 then none else some ((index : Int) - (len : Int) + 1))) := by
+            have := hol
+            simp only [hst, olValueG, Nat.lt_irrefl, if_false, if_true, Option.some.injEq] at this
+            exact this.symm
+          have hp : PureOn W (.call (.name "list") [.subscript (.name tmp) (.slice (some (.const (.int (index : Int))))
+              (if (index : Int) - (len : Int) + 1 = 0 then none else some (intConstant ((index : Int) - (len : Int) + 1))) none)] []) live t v0 := by
+            rw [hv]
+            have := pureOn_star W hW index (if (index : Int) - (len : Int) + 1 = 0 then none else some ((index : Int) - (len : Int) + 1)) hm htmp hl
+            by_cases h0 : (index : Int) - (len : Int) + 1 = 0
+            · simpa [h0] using this
+            · simpa [h0] using this
+          obtain ⟨t1, hs1, hx1, hm1, hf1⟩ := assignAuto_pure W hW hn (.starred sub) hse true h1 _ live t st hlive hp a st1 ha
+          have hl1 : t1.lookup tmp = some (W.tupleOf items) := (hx1 tmp hm).trans hl
+          have hhs' : (true = true ↔ ∃ k, star = some k ∧ k < index + 1) := by
+            simp only [true_iff]
+            exact ⟨index, hst, by omega⟩
+          obtain ⟨t2, hs2, hx2, hm2, hf2⟩ := assignElts_pure W hW hn elts (fun x hx => hall x (by simp [hx])) h2 tmp htmp items vals len star hpv
+            (index + 1) hlen' hstar.tail hvals' true hhs' live t1 st1 (hlive.mono hm1) hm hl1 b st2 hb
+          exact ⟨t2, Seq.append hs1 hs2, Ext.trans hx1 hx2, Nat.le_trans hm1 hm2, sameFlags_trans hf2 hf1⟩
 end
 
 /-! ### targets never request helper imports (static) -/
@@ -285,24 +445,31 @@ mutual
         cases pure_ok h; exact sameFlags_refl _
     | .tuple elts, hs, inPat, ve, st, es, st', h => by
         cases hs with
-        | tuple _ hall =>
+        | tuple _ hall _ =>
           simp only [assignAuto] at h
           obtain ⟨⟨rest, st2⟩, hr, h⟩ := bind_ok h
           cases pure_ok h
-          exact sameFlags_trans (assignElts_flags hn elts hall _ _ _ _ _ _ hr) (sameFlags_fresh _ _)
+          exact sameFlags_trans (assignElts_flags hn elts hall _ _ _ _ _ _ _ hr) (sameFlags_fresh _ _)
     | .list elts, hs, inPat, ve, st, es, st', h => by
         cases hs with
-        | list _ hall =>
+        | list _ hall _ =>
           simp only [assignAuto] at h
           obtain ⟨⟨rest, st2⟩, hr, h⟩ := bind_ok h
           cases pure_ok h
-          exact sameFlags_trans (assignElts_flags hn elts hall _ _ _ _ _ _ hr) (sameFlags_fresh _ _)
+          exact sameFlags_trans (assignElts_flags hn elts hall _ _ _ _ _ _ _ hr) (sameFlags_fresh _ _)
+    | .starred sub, hs, inPat, ve, st, es, st', h => by
+        cases hs with
+        | starred _ hsub =>
+          cases inPat with
+          | false => simp only [assignAuto] at h; cases h
+          | true =>
+            simp only [assignAuto, if_true] at h
+            exact assignAuto_flags hn sub hsub false ve st es st' h
     | .const _, hs, _, _, _, _, _, _ => by cases hs
     | .joinedStr _, hs, _, _, _, _, _, _ => by cases hs
     | .formattedValue .., hs, _, _, _, _, _, _ => by cases hs
     | .set _, hs, _, _, _, _, _, _ => by cases hs
     | .dict _, hs, _, _, _, _, _, _ => by cases hs
-    | .starred _, hs, _, _, _, _, _, _ => by cases hs
     | .slice .., hs, _, _, _, _, _, _ => by cases hs
     | .call .., hs, _, _, _, _, _, _ => by cases hs
     | .binOp .., hs, _, _, _, _, _, _ => by cases hs
@@ -321,17 +488,19 @@ mutual
     | .await _, hs, _, _, _, _, _, _ => by cases hs
 
   theorem assignElts_flags {n : Nsp} (hn : n.kind = .module) : ∀ (elts : List Expr), (∀ e ∈ elts, SimpleT e) → ∀ (tmp : String) (len index : Nat)
-      (st : St) (out : List Expr) (st' : St), assignElts n tmp len index false elts st = .ok (out, st') → sameFlags st' st
-    | [], _, tmp, len, index, st, out, st', h => by simp only [assignElts] at h; cases h; exact sameFlags_refl _
-    | e :: elts, hall, tmp, len, index, st, out, st', h => by
+      (hs : Bool) (st : St) (out : List Expr) (st' : St), assignElts n tmp len index hs elts st = .ok (out, st') → sameFlags st' st
+    | [], _, tmp, len, index, hs, st, out, st', h => by simp only [assignElts] at h; cases h; exact sameFlags_refl _
+    | e :: elts, hall, tmp, len, index, hs, st, out, st', h => by
         have hse := hall e (by simp)
-        have hns : e.isStarred = false := by cases hse <;> rfl
-        simp only [assignElts, hns, Bool.false_and, Bool.false_eq_true, if_false, Bool.or_false] at h
-        obtain ⟨⟨a, st1⟩, ha, h⟩ := bind_ok h
-        obtain ⟨⟨b, st2⟩, hb, h⟩ := bind_ok h
-        cases pure_ok h
-        exact sameFlags_trans (assignElts_flags hn elts (fun x hx => hall x (by simp [hx])) tmp len (index + 1) st1 b st2 hb)
-          (assignAuto_flags hn e hse true _ st a st1 ha)
+        simp only [assignElts] at h
+        by_cases hc : (e.isStarred && hs) = true
+        · rw [if_pos hc] at h; cases h
+        · rw [if_neg hc] at h
+          obtain ⟨⟨a, st1⟩, ha, h⟩ := bind_ok h
+          obtain ⟨⟨b, st2⟩, hb, h⟩ := bind_ok h
+          cases pure_ok h
+          exact sameFlags_trans (assignElts_flags hn elts (fun x hx => hall x (by simp [hx])) tmp len (index + 1) _ st1 b st2 hb)
+            (assignAuto_flags hn e hse true _ st a st1 ha)
 end
 
 end OlVerif.Sem
